@@ -792,11 +792,59 @@ func (f *transformationCallable) updateEntries(item reflect.Value) error {
 		return newEvalError(ErrIllegalUpdate, f.updates, nil)
 	}
 
-	for _, key := range updates.MapKeys() {
-		item.SetMapIndex(key, updates.MapIndex(key))
+	keys := updates.MapKeys()
+	values := make([]reflect.Value, len(keys))
+
+	for i, key := range keys {
+		values[i] = updates.MapIndex(key)
+		// An update that contains the object being updated
+		// (e.g. |$|{"self": $}|) stands for the object as it
+		// was. Store a copy, not a cycle.
+		if containsMap(values[i], item.Pointer(), 0) {
+			v, err := f.clone(values[i])
+			if err != nil {
+				return newEvalError(ErrClone, nil, nil)
+			}
+			values[i] = v
+		}
+	}
+
+	for i, key := range keys {
+		item.SetMapIndex(key, values[i])
 	}
 
 	return nil
+}
+
+// containsMap reports whether the map with the given identity
+// is v or is reachable from v.
+func containsMap(v reflect.Value, ptr uintptr, depth int) bool {
+
+	if depth > 10000 {
+		return true
+	}
+
+	v = jtypes.Resolve(v)
+
+	switch {
+	case jtypes.IsMap(v):
+		if v.Pointer() == ptr {
+			return true
+		}
+		for _, key := range v.MapKeys() {
+			if containsMap(v.MapIndex(key), ptr, depth+1) {
+				return true
+			}
+		}
+	case jtypes.IsArray(v):
+		for i := 0; i < v.Len(); i++ {
+			if containsMap(v.Index(i), ptr, depth+1) {
+				return true
+			}
+		}
+	}
+
+	return false
 }
 
 func (f *transformationCallable) deleteEntries(item reflect.Value) error {
